@@ -25,6 +25,6 @@ def _(v):
         k, val = kv
         return SP.ite(k == 0, -val * 5.489e-4, val * SP.select(ram, k - 1))
     v.invariant(periodic.mass_from_composition, 0,
-                lambda env, i, seq: env["mass"] == SP.ssum_prefix(seq, i, term))
+                lambda env, i, seq: env["@acc"] == SP.ssum_prefix(seq, i, term))
     r = v.call(periodic.mass_from_composition, comp)
     v.prove("post", v.eq(r, SP.ssum(comp, term)))
